@@ -226,6 +226,66 @@ def generate(loader):
     rd = F.denormalize_flow(e3, size=(5, 7, 9), channels_last=True)
     rt = F.denormalize_flow(e3, size=(5, 7, 9), align_corners=True, channels_last=True)
     out.append(f"Definition gen_denormalize_default_is_ac : bool := {'true' if trlib.same_tensor(rd.a, rt.a) else 'false'}.\n")
+    # ---- inverse_consistency_loss: unit conversion of the error, for either align_corners ----------------
+    # the grid is a stand-in object (sizes (5, 7, 9), symbolic spacing); transform_grid adds a symbolic error
+    # vector e to the grid coordinates and transform_points is the identity, so error = e at every point.
+    class _Grid:
+        ndim = 3
+
+        def __init__(self, ac):
+            self._ac = ac
+
+        def coords(self, dtype=None, device=None):
+            return st.zeros(2, 2, 2, 3)
+
+        def align_corners(self):
+            return self._ac
+
+        def size(self):
+            return st.Size((5, 7, 9))
+
+        def spacing(self):
+            return st.symvec("s", 3)
+
+    seen_flags = []
+
+    def transform_grid(t, x, align_corners=None, **kw):
+        seen_flags.append(align_corners)
+        return x + st.symvec("e", 3)
+
+    def transform_points(t, y, align_corners=None, **kw):
+        seen_flags.append(align_corners)
+        return y
+    olds = (L.transform_grid, L.transform_points)
+    L.transform_grid, L.transform_points = transform_grid, transform_points
+    try:
+        fwd = st.symmat("f", 3, 4).unsqueeze(0)
+        for ac in (True, False):
+            for un in ("cube", "voxel", "world"):
+                r = L.inverse_consistency_loss(fwd, fwd, grid=_Grid(ac), units=un, reduction="none")
+                vals = r.a.reshape(-1)
+                if not all(v.same(vals[0]) for v in vals):
+                    raise TraceError("inverse_consistency_loss: error not uniform over the grid")
+                v = vals[0]
+                if v.op != "fn" or v.args[0] != "sqrt":
+                    raise TraceError(f"inverse_consistency_loss: result is not a Euclidean norm: {v}")
+                out.append(f"(* inverse_consistency_loss(units={un!r}) on a grid with align_corners={ac}: squared reported error *)\n"
+                           f"Definition gen_ic_sq_{un}_{'ac' if ac else 'nac'} (s0 s1 s2 e0 e1 e2 : K) : K :=\n  {st.to_coq(v.args[1])}.\n")
+                if any(f is not ac for f in seen_flags):
+                    raise TraceError("inverse_consistency_loss does not pass the grid's align_corners to transform_grid/transform_points")
+                del seen_flags[:]
+            # reductions: 'sum' is the sum and 'mean' the mean of 'none' (8 grid points with the same error)
+            n_ = L.inverse_consistency_loss(fwd, fwd, grid=_Grid(ac), units="cube", reduction="none").a.reshape(-1)
+            s_ = L.inverse_consistency_loss(fwd, fwd, grid=_Grid(ac), units="cube", reduction="sum").a.reshape(-1)[0]
+            m_ = L.inverse_consistency_loss(fwd, fwd, grid=_Grid(ac), units="cube", reduction="mean").a.reshape(-1)[0]
+            tot = E.const(0)
+            for v in n_:
+                tot = tot + v
+            if not s_.same(tot) or not m_.same(tot / len(n_)):
+                raise TraceError("inverse_consistency_loss: 'sum'/'mean' are not the sum/mean of 'none'")
+            del seen_flags[:]
+    finally:
+        L.transform_grid, L.transform_points = olds
     out.append("End Gen.\n")
     rows = ";\n".join(f'  ("{t}"%string, "{k}"%string)' for t, k in table)
     out.append(f"Definition gen_lame_table : list (string * string) := [\n{rows}].\n")
